@@ -33,7 +33,7 @@ class Unit:
                  result=None, invariants=None, variants=None, native=None, bounds=(), gen=None, inline=(),
                  abstract=None, module_consts=None, safety=('index', 'div'), trusted=False, short=None,
                  doc='', while_bound=6, fresh_attr=None, canary=None, timeout_ms=8000, defaults=None,
-                 exec_cls=None, self_class=None, cases=None, store='ite'):
+                 exec_cls=None, self_class=None, cases=None, store='ite', sum_split=False):
         self.props = [props] if isinstance(props, str) else list(props)
         self.qualname = qualname
         self.short = short or qualname.split(':')[1]
@@ -60,6 +60,7 @@ class Unit:
         self.self_class = self_class
         self.cases = list(cases or [{}])
         self.store = store
+        self.sum_split = sum_split
         self._view0 = None
         self._fndef = None
         if qualname in REGISTRY:
@@ -188,6 +189,7 @@ def build_obligations(unit, c):
     """symbolic execution of the real function in ctx c -> (exec, obligations incl. post/raises/frame, outcomes)"""
     mi, fn, cls = unit.locate()
     st = State()
+    c.sum_split = unit.sum_split
     raw = unit.params(c)
     env = {k: materialize(c, st, v) for k, v in raw.items()}
     st.env = dict(env)
